@@ -340,7 +340,9 @@ def gen_params(rng, ctx_thorough, big=False):
                 gkind=rng.choice(['negdef', 'negdef', 'indef', 'semidef']),
                 target=(10 ** rng.uniform(0.08, 2)) if rng.random() < 0.85 else (10 ** rng.uniform(-1.5, -0.05)),
                 scale=rng.choice([0.25, 0.5, 0.8, 2.0, 3.0]),
-                kkind=('chain' if rng.random() < 0.2 else 'random'))
+                kkind=('chain' if rng.random() < 0.2 else 'random'),
+                # a reference load many orders of magnitude below critical (unit load on a stiff structure), dense path
+                xscale=(rng.choice([1e-9, 1e-10, 3e-11, 1e-7]) if (rng.random() < 0.3 and not big) else None))
 
 
 def build_random(p):
@@ -623,6 +625,11 @@ def runs_of(p, tracer=None):
     oc, calls = run_lb(K, KG * s, num, sp, tracer)
     out.append(dict(tag='scaled', n=n, num=num, kmin=True, sparse=sp, K=K, KG=KG * s, act=act, outcome=oc, calls=calls,
                     factor=s))
+    if p.get('xscale'):
+        xs = p['xscale']
+        oc, calls = run_lb(K, KG * xs, num, False, tracer)
+        out.append(dict(tag='scaled', n=n, num=num, kmin=True, sparse=False, K=K, KG=KG * xs, act=act, outcome=oc, calls=calls,
+                        factor=xs))
     if p['kind'] == 'panel':
         for sparse in (True, False):
             oc, calls, K2, KG2 = run_panel_lb(p, num, sparse)
@@ -767,6 +774,7 @@ def correspondence(ctx):
                           found_input=False)
             if ndis >= 3:
                 break
+    redefinition_stream(ctx, rng)
     cov = {}
     for f in (L.lb, S.remove_null_cols):
         al = tracer.all_lines(f)
@@ -778,6 +786,68 @@ def correspondence(ctx):
     ctx.cov['input_distribution'] = dist
     ctx.cov['model_runs_compared'] = len(pending)
     ctx.cov['disagreements'] = ndis
+
+
+def redefinition_one(p, edit, sparse, num):
+    """Panel.lb multipliers before an edit, after the edit on the same object, and of a fresh panel with the edited data"""
+    import warnings
+
+    def apply(obj):
+        if edit == 'load':
+            obj.Nxx, obj.Nyy = obj.Nxx * 2., obj.Nyy * 2.
+        elif edit == 'plyt':
+            obj.plyt = obj.plyt * 1.5
+            obj.plyts = []
+        elif edit == 'a':
+            obj.a = obj.a * 1.3
+        else:
+            obj.stack = [0, 0, 90, 90]
+            obj.plyts = []
+            obj.laminaprops = []
+    pn = make_panel(p)
+    pn.num_eigvalues = num
+    with np.errstate(all='ignore'), warnings.catch_warnings():
+        warnings.simplefilter('ignore')
+        pn.lb(sparse_solver=sparse, silent=True)
+        first = np.array(pn.eigvals, dtype=float)
+        apply(pn)
+        pn.lb(sparse_solver=sparse, silent=True)
+        again = np.array(pn.eigvals, dtype=float)
+        fresh = make_panel(p)
+        fresh.num_eigvalues = num
+        apply(fresh)
+        fresh.lb(sparse_solver=sparse, silent=True)
+        want = np.array(fresh.eigvals, dtype=float)
+    return first, again, want
+
+
+def redefinition_bad(p, edit, sparse, num):
+    try:
+        first, again, want = redefinition_one(p, edit, sparse, num)
+    except Exception:       # solver / glue exceptions are judged by the main stream
+        return None
+    k = min(len(again), len(want), num)
+    if k and np.all(np.isfinite(want[:k])) and np.abs(again[:k] - want[:k]).max() > 1e-6 * np.abs(want[:k]).max():
+        return ('Panel.lb after editing %r on an already analysed panel returns %r, a freshly defined panel with the same data '
+                'gives %r (before the edit: %r)' % (edit, again[:k].tolist(), want[:k].tolist(), first[:k].tolist()))
+    return None
+
+
+def redefinition_stream(ctx, rng):
+    """a Panel whose definition (loads, laminate, geometry) is edited between two buckling analyses gives the multipliers of a
+    freshly defined panel with the edited data"""
+    for _ in range(ctx.scale(4, 30)):
+        p = gen_panel_params(rng)
+        p['m'], p['nn'] = rng.randint(3, 4), rng.randint(3, 4)
+        sparse = rng.random() < 0.5
+        num = rng.choice([2, 3, 5])
+        edit = rng.choice(['load', 'load', 'plyt', 'a', 'stack'])
+        bad = redefinition_bad(p, edit, sparse, num)
+        ctx.evaluations += 1
+        if bad and ctx.violation('C05 fails on the implementation: ' + bad,
+                                 dict(problem=describe_clean(p), edit=edit, sparse=sparse, num=num, kind='redefinition')):
+            return True
+    return False
 
 
 def describe_clean(p):
@@ -809,6 +879,10 @@ def replay(ctx, data):
         print('replay names a broken obligation, no input:', data['what'])
         return 1
     p = r['problem']
+    if r.get('kind') == 'redefinition':
+        bad = redefinition_bad(p, r['edit'], r['sparse'], r['num'])
+        print('redefinition:', bad)
+        return 1 if bad else 0
     runs = runs_of(p)
     bad, stats = evaluate(p, runs)
     lines, keep = [], []
